@@ -14,6 +14,7 @@ class PatchList:
     def __init__(self) -> None:
         self.patches: OrderedDict[str, Patch] = OrderedDict()
         self.modified: Set[str] = set()  # names of patches changed by modify()
+        self.rank: Dict[str, int] = {}  # order in which patches first appeared, kept through clear()
         self.default: Dict[str, str] = {}
         self.merged: List[List[str]] = []  # data for the mergePatchPairs entry
 
@@ -26,6 +27,7 @@ class PatchList:
         """Fetches an existing Patch or creates a new one"""
         if name not in self.patches:
             self.patches[name] = Patch(name)
+            self.rank.setdefault(name, len(self.rank))
 
         return self.patches[name]
 
@@ -65,7 +67,9 @@ class PatchList:
         """Outputs a 'boundary' and 'faces' dict to be inserted directly into blockMeshDict"""
         out = "boundary\n(\n"
 
-        for _, patch in self.patches.items():
+        # patches kept by clear() precede the re-created ones in the dictionary:
+        # write every patch at the place of its first appearance
+        for patch in sorted(self.patches.values(), key=lambda patch: self.rank[patch.name]):
             out += patch.description
 
         out += ");\n\n"
